@@ -517,7 +517,17 @@ func (g *Gen) fresh(t *rapid.T, w *World, id uint64) Entry {
 	if g.opt.WithMoD {
 		wMoD = 1
 	}
-	switch pickW(t, "entrykind", 80, wCreate, wDelete, wConfig, wMoD, wDead) {
+	wScenario := 2
+	if g.opt.Bias == "privilege" {
+		wScenario = 8
+	}
+	switch pickW(t, "entrykind", 80, wCreate, wDelete, wConfig, wMoD, wDead, wScenario) {
+	case 6:
+		if g.scenario(t, w) && len(g.pending) > 0 {
+			e := g.pending[0]
+			g.pending = g.pending[1:]
+			return e
+		}
 	case 1:
 		return g.create(t, w, id)
 	case 2:
@@ -557,6 +567,103 @@ func (g *Gen) fresh(t *rapid.T, w *World, id uint64) Entry {
 	}
 	sid := live[rapid.IntRange(0, len(live)-1).Draw(t, "session")]
 	return g.lineFor(t, w, sid)
+}
+
+// scenario queues a scripted "restricted channel" exchange: a channel operator
+// restricts its channel (+i/+k/+x/+b and combinations), optionally invites an
+// outsider, and the outsider tries to join with keys / captcha answers of every
+// class. Construction instead of waiting for coin flips to line up.
+func (g *Gen) scenario(t *rapid.T, w *World) bool {
+	var cands []int
+	for ci, ch := range w.Channels {
+		if len(ch.Ops) > 0 && validChan(ch.Name) {
+			cands = append(cands, ci)
+		}
+	}
+	if len(cands) == 0 {
+		return false
+	}
+	ch := w.Channels[cands[rapid.IntRange(0, len(cands)-1).Draw(t, "scchan")]]
+	op := w.nickOwner(NickLower(ch.Ops[rapid.IntRange(0, len(ch.Ops)-1).Draw(t, "scop")]))
+	if op == nil || op.Server || op.Reply != 0 {
+		return false
+	}
+	var outsiders []*SessInfo
+	for i := range w.Sessions {
+		s := &w.Sessions[i]
+		if s.Reply != 0 || s.Server || !s.LoggedIn {
+			continue
+		}
+		in := false
+		for _, c := range s.Channels {
+			if strings.EqualFold(c, ch.Name) {
+				in = true
+			}
+		}
+		if !in {
+			outsiders = append(outsiders, s)
+		}
+	}
+	if len(outsiders) == 0 {
+		return false
+	}
+	out := outsiders[rapid.IntRange(0, len(outsiders)-1).Draw(t, "scoutsider")]
+	key := ch.Key
+	var script []Entry
+	line := func(s *SessInfo, data string) {
+		script = append(script, Entry{Kind: "irc", Session: s.Id, Data: data, Addr: s.RemoteAddr})
+	}
+	restr := pick(t, "screstr", []string{"i", "k", "x", "b", "ik", "xk", "xb", "ib", "kb", "xi", ""})
+	for _, r := range restr {
+		switch r {
+		case 'i', 'x':
+			line(op, "MODE "+ch.Name+" +"+string(r))
+		case 'k':
+			key = pick(t, "sckey", []string{"key", "k2"})
+			line(op, "MODE "+ch.Name+" +k "+key)
+		case 'b':
+			mask := pick(t, "scmask", []string{out.Nick + "!*@*", "*!*@*", fmt.Sprintf("*!*@robust/0x%x", out.Id), "*!" + out.User + "@*", strings.ToUpper(out.Nick) + "!*@*"})
+			line(op, "MODE "+ch.Name+" +b "+mask)
+		}
+	}
+	if coin(t, "scinvite", 2, 5) {
+		line(op, "INVITE "+out.Nick+" "+ch.Name)
+	}
+	joins := rapid.IntRange(1, 2).Draw(t, "scjoins")
+	for j := 0; j < joins; j++ {
+		k := ""
+		switch pickW(t, "scjoinkey", 3, 2, 3, 1) {
+		case 0:
+			k = key
+		case 1:
+			k = pick(t, "scwrongkey", []string{"wrong", "", "KEY"})
+		case 2:
+			if g.Cfg.HasSecret {
+				k = g.genToken(t, "join", ch.Name, out)
+			} else {
+				k = key
+			}
+		}
+		if k != "" {
+			k = " " + k
+		}
+		line(out, "JOIN "+ch.Name+k)
+		if j == 0 && joins == 2 {
+			line(out, "PART "+ch.Name)
+		}
+	}
+	g.pending = append(script, g.pending...)
+	return true
+}
+
+// CaptchaConfig is a member of the family with a captcha URL and secret.
+func CaptchaConfig() Config {
+	c := DefaultConfig()
+	c.URL = "http://captcha.example/"
+	c.Secret = []byte("0123456789abcdef0123456789abcdef")
+	c.HasSecret = true
+	c.TOML = "CaptchaURL = \"http://captcha.example/\"\nCaptchaHMACSecret = \"" + hex.EncodeToString(c.Secret) + "\"\n" + c.TOML
+	return c
 }
 
 // lineFor produces a line for a live session according to its role (ground truth).
